@@ -39,6 +39,7 @@ type Contract struct {
 	Modifies []string
 	HasModifies bool
 	Loops    map[int]*LoopSpec
+	NamedLoops map[string]*LoopSpec
 	Pure     bool
 	PureDef  *Clause // explicit definition of a pure function
 	Trusted  bool
@@ -64,7 +65,7 @@ type ChanSpec struct {
 
 var reFuncHdr = regexp.MustCompile(`^func\s*(?:\(\s*(\w+)\s+\*?([\w.]+)\s*\)\s*)?([\w#.]+)\s*(?:\(([^)]*)\))?\s*(.*)$`)
 var reClause = regexp.MustCompile(`^(requires|ensures|effect|invariant|decreases|assert|iter_ensures)(?:\[([\w@ ,.-]+)\])?\s+(.*)$`)
-var reLoop = regexp.MustCompile(`^loop\s+(\d+)\s*:\s*(.*)$`)
+var reLoop = regexp.MustCompile(`^loop\s+(\w+)\s*:\s*(.*)$`)
 
 func (p *Prog) loadContracts(files ...string) error {
 	for _, f := range files {
@@ -323,7 +324,7 @@ func (p *Prog) loadContractFile(path string) error {
 			pending = append(pending, c)
 			lastClause = c
 		case strings.HasPrefix(line, "callsite "):
-			m := regexp.MustCompile(`^callsite\s+([\w.]+)\s*:\s*(.*)$`).FindStringSubmatch(line)
+			m := regexp.MustCompile(`^callsite\s+([\w.#]+)\s*:\s*(.*)$`).FindStringSubmatch(line)
 			if m == nil {
 				return fmt.Errorf("%s:%d: bad callsite clause", path, lineNo)
 			}
@@ -352,16 +353,28 @@ func (p *Prog) loadContractFile(path string) error {
 			if m == nil {
 				return fmt.Errorf("%s:%d: bad loop clause", path, lineNo)
 			}
-			k, _ := strconv.Atoi(m[1])
 			cm := reClause.FindStringSubmatch(m[2])
 			if cm == nil {
 				return fmt.Errorf("%s:%d: bad loop clause body %q", path, lineNo, m[2])
 			}
 			c, _ := mkClause(cm[1], cm[2], cm[3])
-			ls := cur.Loops[k]
-			if ls == nil {
-				ls = &LoopSpec{}
-				cur.Loops[k] = ls
+			var ls *LoopSpec
+			if k, err := strconv.Atoi(m[1]); err == nil {
+				ls = cur.Loops[k]
+				if ls == nil {
+					ls = &LoopSpec{}
+					cur.Loops[k] = ls
+				}
+			} else {
+				// loop named by a label (re-entered by goto)
+				if cur.NamedLoops == nil {
+					cur.NamedLoops = map[string]*LoopSpec{}
+				}
+				ls = cur.NamedLoops[m[1]]
+				if ls == nil {
+					ls = &LoopSpec{}
+					cur.NamedLoops[m[1]] = ls
+				}
 			}
 			if cm[1] == "decreases" {
 				ls.Decreases = c
@@ -411,6 +424,20 @@ func clauseProps(ct *Contract, c *Clause) []string {
 func hasProp(props []string, id string) bool {
 	for _, p := range props {
 		if p == id {
+			return true
+		}
+	}
+	return false
+}
+
+func (ct *Contract) hasCallSite(name string) bool {
+	for k := range ct.CallSites {
+		if k == name || strings.HasPrefix(k, name+"#") {
+			return true
+		}
+	}
+	for k := range ct.CallSiteMods {
+		if k == name || strings.HasPrefix(k, name+"#") {
 			return true
 		}
 	}
